@@ -69,7 +69,7 @@ MarkShadowed(m, seg) ==
            Go(mm, stage, some) ==
              IF stage < rel \/ stage < 0 THEN [m |-> mm, some |-> some]
              ELSE LET cur == Get(mm, seg, stage)  nxt == Get(mm, seg, stage + 1) IN
-                  IF cur \notin {"C", "N"} /\ nxt \in {".", "S", "M", "Z"} /\ seg \in Segs /\ seg >= First(stage)
+                  IF cur \in {".", "Z"} /\ nxt \in {".", "S", "Z"} /\ seg \in Segs /\ seg >= First(stage)
                   THEN Go(Set(mm, seg, stage, "Z"), stage - 1, TRUE)
                   ELSE Go(mm, stage - 1, some)
        IN Go(m, LastStage - 1, FALSE)
